@@ -42,6 +42,10 @@ def parseKey (k : Yaml) (vIsSeq : Bool) : Except Err (Expr × Str × Option ModS
         | _ => .error .parseInvalidIdent
   | _ => .error .parseInvalidIdent
 
+def Yaml.isSeq : Yaml → Bool
+  | .seq _ => true
+  | _ => false
+
 def boolToStr (b : Bool) : Str := if b then "true".toList else "false".toList
 
 /-- Case-insensitive single needles become one-needle automatons (parser.rs:1014-1089). -/
@@ -151,7 +155,7 @@ def parseEntries (E : RegexEngine) (ic : Bool) : List (Yaml × Yaml) → Except 
 
 def parsePair (E : RegexEngine) (ic : Bool) : Yaml × Yaml → Except Err Expr
   | (k, v) =>
-    match parseKey k (match v with | .seq _ => true | _ => false) with
+    match parseKey k v.isSeq with
     | .error err => .error err
     | .ok (e, f, misc) => parseVal E ic e f misc v
 
